@@ -39,11 +39,13 @@ SPDX_SNIPPET_INDICATOR = b"SPDX-SnippetBegin"
 
 _LOGGER = logging.getLogger(__name__)
 
-_END_PATTERN = r"{}$".format(
-    "".join(
-        {
-            r"(?:{})*".format(item)  # pylint: disable=consider-using-f-string
-            for item in chain(
+# Any sequence of comment terminators, in any order. The alternatives are sorted
+# so that the pattern does not depend on the iteration order of the set.
+_END_PATTERN = r"(?:{})*$".format(
+    "|".join(
+        sorted(
+            r"(?:{})".format(item)  # pylint: disable=consider-using-f-string
+            for item in set(chain(
                 (
                     re.escape(style.MULTI_LINE.end)
                     for style in _all_style_classes()
@@ -62,8 +64,8 @@ _END_PATTERN = r"{}$".format(
                         r"\]\s*::",
                     ]
                 ),
-            )
-        }
+            ))
+        )
     )
 )
 _LICENSE_IDENTIFIER_PATTERN = re.compile(
